@@ -9,6 +9,7 @@ pub mod spans;
 pub mod c05;
 pub mod c06;
 pub mod c08;
+pub mod c11;
 pub mod c12;
 pub mod c16;
 pub mod c19;
@@ -27,6 +28,7 @@ pub fn dispatch_check(id: &str, tier: Tier, seed: u64) -> i32 {
         "C16" => run_check(&c16::C16, tier, seed),
         "C19" => run_check(&c19::C19, tier, seed),
         "C20" => run_check(&c20::C20, tier, seed),
+        "C11" => run_check(&c11::C11, tier, seed),
         _ => {
             eprintln!("harness error: unknown property {id}");
             2
@@ -47,6 +49,7 @@ pub fn dispatch_replay(id: &str, file: &str) -> i32 {
         "C16" => run_replay(&c16::C16, file),
         "C19" => run_replay(&c19::C19, file),
         "C20" => run_replay(&c20::C20, file),
+        "C11" => run_replay(&c11::C11, file),
         _ => {
             eprintln!("harness error: unknown property {id}");
             2
